@@ -1148,7 +1148,7 @@ def load_corpus():
 
 
 def report_dis(rep, stage, dis, found):
-    if dis and not found:
+    if dis and not rep.n_with_input:
         i, call, iv, mv = dis[0]
         what = call.to_json() if isinstance(call, Tree) else call
         detail = ''
@@ -1170,7 +1170,7 @@ def run(rep):
     corpus = load_corpus()
     n = 6000 if thorough else 350
     dis, found = stage_scope(rep, rng, n, bi_build, bi_opts, [c['tree'] for c in corpus if 'tree' in c])
-    if dis and not found:
+    if dis and not rep.n_with_input:
         dis2, found = stage_scope(rep, rng, n * 10, bi_build, bi_opts)
     report_dis(rep, 'W:scope', dis, found)
     pdis = stage_paths(rep, rng, 20000 if thorough else 1500)
